@@ -178,3 +178,166 @@ Qed.
 Lemma selector_next_without_word_fixed : forall fwd,
   ps_next md_ops empty_dict (sel_on_it fwd) = Ok (sel_on_it fwd).
 Proof. intros [|]; reflexivity. Qed.
+
+(* ------------------------------------------------------------------ *)
+(* Totality of the phrase selector: on a selector satisfying the invariant (EditorInv.ps_ok) no
+   slice index is out of range, no subtraction underflows and every loop ends within its fuel. *)
+From LC Require Import Proofs.BreakPoints.
+
+Section SelectorTotal.
+Context {D : Type} (dops : dict_ops D).
+Variable dict_ok : D -> Prop.
+Hypothesis ok_lookup : forall d f, dict_ok d -> do_lookup dops d f [] = [].
+
+Lemma fine_ps_range_has d p b e : b <= e <= clen (ps_com p) -> exists r, ps_range_has dops d p b e = Ok r.
+Proof.
+  intros (H1 & H2). unfold ps_range_has.
+  destruct (Nat.ltb e b) eqn:E1; [apply Nat.ltb_lt in E1; lia|].
+  destruct (Nat.ltb (clen (ps_com p)) e) eqn:E2; [apply Nat.ltb_lt in E2; lia|]. eauto.
+Qed.
+
+(* PhraseSelector::init's shrinking loop ends (at the latest on a single syllable) *)
+Lemma ps_shrink_total d : forall fuel p, ps_begin p < ps_end p <= clen (ps_com p) ->
+  syl_range (ps_com p) (ps_begin p) (ps_end p) -> ps_end p - ps_begin p < fuel ->
+  exists p', ps_shrink dops d fuel p = Ok p'.
+Proof.
+  induction fuel as [|k IH]; intros p (Hlt & Hle) Hs Hf; [lia|]. cbn [ps_shrink].
+  destruct (Nat.ltb (ps_end p) (ps_begin p)) eqn:E1; [apply Nat.ltb_lt in E1; lia|].
+  destruct (Nat.ltb (clen (ps_com p)) (ps_end p)) eqn:E2; [apply Nat.ltb_lt in E2; lia|].
+  destruct (has_phrase dops d (ps_fuzzy p) _); [eauto|].
+  destruct (Nat.eqb (ps_end p - ps_begin p) 1) eqn:E3.
+  - apply Nat.eqb_eq in E3.
+    destruct (slice_head_syl (ps_com p) (ps_begin p) (ps_end p) ltac:(lia) (Hs (ps_begin p) ltac:(lia))) as (s & l & Hsl).
+    rewrite Hsl. cbn [andb]. eauto.
+  - apply Nat.eqb_neq in E3. cbn [andb].
+    destruct (ps_fwd p).
+    + destruct (Nat.eqb (ps_end p) 0) eqn:E4; [apply Nat.eqb_eq in E4; lia|].
+      apply IH; cbn [ps_begin ps_end ps_com]; [lia | eapply syl_range_sub; [exact Hs | lia | lia] | lia].
+    + apply IH; cbn [ps_begin ps_end ps_com]; [lia | eapply syl_range_sub; [exact Hs | lia | lia] | lia].
+Qed.
+
+Lemma ps_init_total d p cur : cur < clen (ps_com p) -> syl_at (ps_com p) cur -> exists p', ps_init dops d p cur = Ok p'.
+Proof.
+  intros Hc Hs. unfold ps_init. destruct (ps_fwd p).
+  - assert (Nat.eqb cur (clen (ps_com p)) = false) as E by (apply Nat.eqb_neq; lia). rewrite E. cbn [andb].
+    destruct (nbp_props (ps_com p) cur ltac:(lia)) as ((N1 & N2) & Hr & _).
+    pose proof (nbp_gt (ps_com p) cur Hc Hs).
+    apply ps_shrink_total; cbn [ps_begin ps_end ps_com]; [lia | exact Hr | lia].
+  - destruct (apbp_props (ps_com p) cur ltac:(lia)) as (A1 & Hr).
+    assert (Em : Nat.min (S cur) (clen (ps_com p)) = S cur) by lia.
+    apply ps_shrink_total; cbn [ps_begin ps_end ps_com]; rewrite ?Em; [lia | apply syl_range_snoc; assumption | lia].
+Qed.
+
+Lemma ps_next_point_total d : forall fuel p b e, b < e <= clen (ps_com p) -> e - b < fuel ->
+  exists r, ps_next_point dops d fuel p b e = Ok r.
+Proof.
+  induction fuel as [|k IH]; intros p b e (Hlt & Hle) Hf; [lia|]. cbn [ps_next_point].
+  destruct (ps_fwd p).
+  - destruct (Nat.eqb e 0) eqn:E0; [apply Nat.eqb_eq in E0; lia|].
+    destruct (Nat.eqb b (e - 1)) eqn:E1; [eauto|]. apply Nat.eqb_neq in E1.
+    destruct (fine_ps_range_has d p b (e - 1) ltac:(lia)) as ([|] & ->); [eauto|]. apply IH; lia.
+  - destruct (Nat.eqb (S b) e) eqn:E1; [eauto|]. apply Nat.eqb_neq in E1.
+    destruct (fine_ps_range_has d p (S b) e ltac:(lia)) as ([|] & ->); [eauto|]. apply IH; lia.
+Qed.
+
+Lemma ps_prev_point_total d : forall fuel p b e, b <= e <= clen (ps_com p) -> ps_orig p <= clen (ps_com p) ->
+  (if ps_fwd p then clen (ps_com p) - e < fuel else b < fuel) ->
+  exists r, ps_prev_point dops d fuel p b e = Ok r.
+Proof.
+  induction fuel as [|k IH]; intros p b e (Hlt & Hle) Ho Hf; [destruct (ps_fwd p); lia|]. cbn [ps_prev_point].
+  destruct (ps_fwd p) eqn:Ef.
+  - destruct (Nat.eqb e (clen (ps_com p))) eqn:E0; [eauto|]. apply Nat.eqb_neq in E0.
+    destruct (Nat.ltb (nbp (ps_com p) (ps_orig p)) (S e)) eqn:E1; [eauto|]. apply Nat.ltb_ge in E1.
+    destruct (nbp_props (ps_com p) (ps_orig p) Ho) as ((_ & N2) & _).
+    destruct (fine_ps_range_has d p b (S e) ltac:(lia)) as ([|] & ->); [eauto|].
+    apply IH; [lia | exact Ho | rewrite Ef; lia].
+  - destruct (Nat.eqb b 0) eqn:E0; [eauto|]. apply Nat.eqb_neq in E0.
+    destruct (Nat.ltb (b - 1) (apbp (ps_com p) (ps_orig p))); [eauto|].
+    destruct (fine_ps_range_has d p (b - 1) e ltac:(lia)) as ([|] & ->); [eauto|].
+    apply IH; [lia | exact Ho | rewrite Ef; lia].
+Qed.
+
+(* PhraseSelector::next: the cycle through the ranges comes back to the range it started from after at
+   most (number of ranges) steps - this is the termination argument the pinned code lacked *)
+Lemma ps_cycle_total_fwd d b0 e0 L : forall fuel p, ps_ok p -> ps_fwd p = true -> ps_begin p = b0 ->
+  L = nbp (ps_com p) b0 -> b0 < e0 <= L ->
+  (if Nat.ltb e0 (ps_end p) then ps_end p - e0 else (ps_end p - b0) + (L - e0)) < fuel ->
+  exists p', ps_cycle dops d fuel (b0, e0) p = Ok p'.
+Proof.
+  induction fuel as [|k IH]; intros p Hok Hf Hb HL He0 Hd; [lia|].
+  pose proof (ps_cycle_step_ok p Hok) as Hstep. cbv zeta in Hstep. rewrite Hf in Hstep.
+  pose proof Hok as [Hlt Hle [Hsyl _ _]].
+  assert (HeL : ps_end p <= L) by (subst L b0; apply nbp_max; [exact Hsyl | lia]).
+  cbn [ps_cycle]. rewrite Hf.
+  destruct (Nat.eqb (ps_end p) 0) eqn:E0; [apply Nat.eqb_eq in E0; lia|]. cbn [obind].
+  set (e' := if Nat.eqb (ps_begin p) (ps_end p - 1) then nbp (ps_com p) (ps_begin p) else ps_end p - 1) in *.
+  pose proof Hstep as [Hlt' Hle' _]. cbn [ps_with_range ps_begin ps_end ps_com] in Hlt', Hle'.
+  destruct (fine_ps_range_has d p (ps_begin p) e' ltac:(lia)) as ([|] & ->); [eauto|].
+  cbn [fst snd]. destruct (Nat.eqb (ps_begin p) b0 && Nat.eqb e' e0) eqn:Est; [eauto|].
+  apply IH; cbn [ps_with_range ps_begin ps_end ps_com ps_fwd]; try assumption.
+  rewrite Hb, Nat.eqb_refl in Est. cbn [andb] in Est. apply Nat.eqb_neq in Est.
+  subst e'. rewrite Hb in *.
+  destruct (Nat.eqb b0 (ps_end p - 1)) eqn:E1.
+  - apply Nat.eqb_eq in E1. rewrite <- HL in *.
+    destruct (Nat.ltb e0 (ps_end p)) eqn:E2; [apply Nat.ltb_lt in E2; lia|]. apply Nat.ltb_ge in E2.
+    destruct (Nat.ltb e0 L) eqn:E3; [apply Nat.ltb_lt in E3; lia | apply Nat.ltb_ge in E3; lia].
+  - apply Nat.eqb_neq in E1.
+    destruct (Nat.ltb e0 (ps_end p)) eqn:E2; [apply Nat.ltb_lt in E2 | apply Nat.ltb_ge in E2].
+    + destruct (Nat.ltb e0 (ps_end p - 1)) eqn:E3; [apply Nat.ltb_lt in E3; lia | apply Nat.ltb_ge in E3; lia].
+    + destruct (Nat.ltb e0 (ps_end p - 1)) eqn:E3; [apply Nat.ltb_lt in E3; lia | apply Nat.ltb_ge in E3; lia].
+Qed.
+
+Lemma ps_cycle_total_rear d b0 e A : forall fuel p, ps_ok p -> ps_fwd p = false -> ps_end p = e ->
+  A = apbp (ps_com p) (e - 1) -> A <= b0 < e ->
+  (if Nat.ltb (ps_begin p) b0 then b0 - ps_begin p else (e - 1 - ps_begin p) + 1 + (b0 - A)) < fuel ->
+  exists p', ps_cycle dops d fuel (b0, e) p = Ok p'.
+Proof.
+  induction fuel as [|k IH]; intros p Hok Hf He HA Hb0 Hd; [lia|].
+  pose proof (ps_cycle_step_ok p Hok) as Hstep. cbv zeta in Hstep. rewrite Hf in Hstep.
+  pose proof Hok as [Hlt Hle [Hsyl _ Hdir]]. rewrite Hf in Hdir. destruct Hdir as (Hd1 & Hd2).
+  assert (HAo : A = apbp (ps_com p) (ps_orig p)) by (subst A e; rewrite Hd1; f_equal; lia).
+  cbn [ps_cycle]. rewrite Hf. cbn [obind].
+  set (b' := if Nat.eqb (S (ps_begin p)) (ps_end p) then apbp (ps_com p) (S (ps_begin p) - 1) else S (ps_begin p)) in *.
+  pose proof Hstep as [Hlt' Hle' _]. cbn [ps_with_range ps_begin ps_end ps_com] in Hlt', Hle'.
+  destruct (fine_ps_range_has d p b' (ps_end p) ltac:(lia)) as ([|] & ->); [eauto|].
+  cbn [fst snd]. destruct (Nat.eqb b' b0 && Nat.eqb (ps_end p) e) eqn:Est; [eauto|].
+  apply IH; cbn [ps_with_range ps_begin ps_end ps_com ps_fwd]; try assumption.
+  rewrite He, Nat.eqb_refl, andb_true_r in Est. apply Nat.eqb_neq in Est.
+  subst b'. rewrite He in *.
+  destruct (Nat.eqb (S (ps_begin p)) e) eqn:E1.
+  - apply Nat.eqb_eq in E1. replace (S (ps_begin p) - 1) with (e - 1) in * by lia. rewrite <- HA in *.
+    destruct (Nat.ltb (ps_begin p) b0) eqn:E2; [apply Nat.ltb_lt in E2; lia|]. apply Nat.ltb_ge in E2.
+    destruct (Nat.ltb A b0) eqn:E3; [apply Nat.ltb_lt in E3; lia | apply Nat.ltb_ge in E3; lia].
+  - apply Nat.eqb_neq in E1.
+    destruct (Nat.ltb (ps_begin p) b0) eqn:E2; [apply Nat.ltb_lt in E2 | apply Nat.ltb_ge in E2].
+    + destruct (Nat.ltb (S (ps_begin p)) b0) eqn:E3; [apply Nat.ltb_lt in E3; lia | apply Nat.ltb_ge in E3; lia].
+    + destruct (Nat.ltb (S (ps_begin p)) b0) eqn:E3; [apply Nat.ltb_lt in E3; lia | apply Nat.ltb_ge in E3; lia].
+Qed.
+
+Theorem ps_next_total d p : ps_ok p -> exists p', ps_next dops d p = Ok p'.
+Proof.
+  intros Hok. pose proof Hok as [Hlt Hle [Hsyl (O1 & O2) Hdir]]. unfold ps_next.
+  destruct (ps_fwd p) eqn:Ef.
+  - destruct (nbp_props (ps_com p) (ps_begin p) ltac:(lia)) as ((N1 & N2) & _).
+    assert (ps_end p <= nbp (ps_com p) (ps_begin p)) by (apply nbp_max; [exact Hsyl | lia]).
+    eapply ps_cycle_total_fwd; try eassumption; try reflexivity; [lia|].
+    rewrite Nat.ltb_irrefl. lia.
+  - destruct Hdir as (Hd1 & Hd2).
+    destruct (apbp_props (ps_com p) (ps_orig p) ltac:(lia)) as (A1 & _).
+    eapply ps_cycle_total_rear with (A := apbp (ps_com p) (ps_end p - 1)); try eassumption; try reflexivity.
+    + replace (ps_end p - 1) with (ps_orig p) by lia. lia.
+    + rewrite Nat.ltb_irrefl. replace (ps_end p - 1) with (ps_orig p) by lia. lia.
+Qed.
+
+Lemma ps_jump_last_total d : forall fuel p, ps_ok p -> dict_ok d -> ps_end p - ps_begin p < fuel ->
+  exists p', ps_jump_last dops d fuel p = Ok p'.
+Proof.
+  induction fuel as [|k IH]; intros p Hok Hd Hf; [lia|]. cbn [ps_jump_last].
+  pose proof Hok as [Hlt Hle _].
+  destruct (ps_next_point_total d (S (S (clen (ps_com p)))) p (ps_begin p) (ps_end p) ltac:(lia) ltac:(lia)) as (r & Hr).
+  unfold ps_next_selection_point. rewrite Hr. destruct r as [[b e]|]; [|eauto].
+  destruct (ps_next_point_inv dops dict_ok ok_lookup _ _ _ _ _ _ _ Hd Hr) as (A & B & C & E & F & G).
+  apply IH; [apply ps_ok_narrower; assumption | exact Hd | cbn [ps_with_range ps_begin ps_end]; lia].
+Qed.
+
+End SelectorTotal.
